@@ -495,11 +495,19 @@ class GraphGen:
         if allow_ann and r.random() < 0.35:
             k.ann = dict(r.choice(DOC_ANN))
             c = own_cons(src)
+            same_src_dyn = False
             if c and not allow_dyn and r.random() < 0.6:
                 k.ann.update(c)
                 k.locked = True  # own constraints: only ever used through its registered role
-        if allow_dyn and r.random() < 0.6:
-            dsrc = src if r.random() < 0.5 or has_conv(src) else self.leaf(small=True)
+            elif c and allow_dyn and r.random() < 0.4:
+                # own constraints and a dynamic conversion from the very same source type: the constraints apply through the
+                # registered role and do not through the dynamic one (same JSON kind, so they are meaningful in both schemas)
+                k.ann.update(c)
+                same_src_dyn = True
+        else:
+            same_src_dyn = False
+        if allow_dyn and (same_src_dyn or r.random() < 0.6):
+            dsrc = src if same_src_dyn or r.random() < 0.5 or has_conv(src) else self.leaf(small=True)
             k.add("dyn", dsrc, style=self.style(), sub=self.sub_roles(dsrc))
         return k
 
